@@ -2,6 +2,7 @@ package main
 
 import (
 	"bytes"
+	"crypto"
 	stdecdsa "crypto/ecdsa"
 	stded "crypto/ed25519"
 	"crypto/elliptic"
@@ -11,6 +12,8 @@ import (
 	"math/big"
 	"strings"
 
+	"github.com/cloudflare/circl/expander"
+	"github.com/cloudflare/circl/group"
 	"github.com/cloudflare/pat-go/ecdsa"
 	"github.com/cloudflare/pat-go/ed25519"
 	"golang.org/x/crypto/cryptobyte"
@@ -226,6 +229,11 @@ func runC12(c *Ctx) {
 			if !c.DirectOK(err == nil && strings.HasPrefix(out, "ok "), "blinding failed", in) {
 				continue
 			}
+			// the blinding factor recomputed with circl's hash_to_field and the standard library's scalar multiplication
+			if ref := refBlind(cn, sk.X, sk.Y, bk.D, ctx); ref != nil {
+				c.Direct(ref[0].Cmp(bp.X) == 0 && ref[1].Cmp(bp.Y) == 0,
+					"blinded key is not pk × hash_to_field(XMD(curve hash, \"ECDSA Key Blind\"), blind-key bytes ‖ 0x00 ‖ context)", in)
+			}
 			// unblind inverts blind
 			c.Run("c12.unblind", cn, bigHex(bp.X), bigHex(bp.Y), hx(blind), hx(ctx))
 			up, err := ecdsa.UnblindPublicKeyWithContext(cv, bp, bk, ctx)
@@ -255,6 +263,31 @@ func runC12(c *Ctx) {
 			c.Run("c13.verify", cn, bigHex(sk.X), bigHex(sk.Y), hx(digest), bigHex(rr), bigHex(ss))
 		}
 	}
+}
+
+// refBlind: independent Go reference for the blinded public key.
+func refBlind(curve string, x, y, d *big.Int, ctx []byte) []*big.Int {
+	var h crypto.Hash
+	var L uint
+	switch curve {
+	case "P-224":
+		h, L = crypto.SHA256, 32
+	case "P-256":
+		h, L = crypto.SHA256, 48
+	case "P-384":
+		h, L = crypto.SHA384, 72
+	case "P-521":
+		h, L = crypto.SHA512, 98
+	}
+	cv := curves[curve]
+	msg := append(append(append([]byte{}, d.Bytes()...), 0), ctx...)
+	var u [1]big.Int
+	group.HashToField(u[:], msg, expander.NewExpanderMD(h, []byte("ECDSA Key Blind")), cv.Params().N, L)
+	if u[0].Sign() == 0 {
+		return nil
+	}
+	rx, ry := cv.ScalarMult(x, y, u[0].Bytes())
+	return []*big.Int{rx, ry}
 }
 
 func derInt(x *big.Int) []byte {
@@ -354,6 +387,12 @@ func runC13(c *Ctx) {
 				out := c.Run("c13.entropy", cn, fmt.Sprint(pos), fmt.Sprint(chunk))
 				c.Count("entropy")
 				c.Direct(!strings.Contains(out, "err+"), "an error was returned together with a key or signature", map[string]any{"curve": cn, "pos": pos, "chunk": chunk, "impl": out})
+				if pos < 32 {
+					c.Direct(strings.HasPrefix(out, "sign=err"), "Sign succeeded although the entropy source failed before 32 bytes", map[string]any{"curve": cn, "pos": pos, "chunk": chunk, "impl": out})
+				}
+				if pos < cv.Params().BitSize/8+8 {
+					c.Direct(strings.Contains(out, "gen=err"), "GenerateKey succeeded although the entropy source failed", map[string]any{"curve": cn, "pos": pos, "chunk": chunk, "impl": out})
+				}
 			}
 		}
 		c.Run("c13.entropy", cn, "-1", "0")
